@@ -17,6 +17,7 @@ extern crate rustc_driver;
 extern crate rustc_hir;
 extern crate rustc_interface;
 extern crate rustc_middle;
+extern crate rustc_session;
 extern crate rustc_span;
 
 use std::collections::{BTreeMap, HashMap, HashSet, VecDeque};
@@ -72,7 +73,9 @@ impl rustc_driver::Callbacks for Cb {
         let is_test = tcx.sess.opts.test;
         let facts = with_no_trimmed_paths!(dump_crate(tcx, &name, is_test, std::mem::take(&mut self.fmt_templates)));
         let suffix = if is_test { ".test" } else { "" };
-        let path = format!("{}/{}{}.facts.json", dir, name, suffix);
+        let is_bin = tcx.crate_types().iter().any(|t| matches!(t, rustc_session::config::CrateType::Executable));
+        let kind = if is_bin { ".bin" } else { "" };
+        let path = format!("{}/{}{}{}.facts.json", dir, name, kind, suffix);
         let mut s = String::new();
         facts.write(&mut s);
         std::fs::write(&path, s).expect("write facts");
@@ -773,6 +776,34 @@ fn operand_json<'tcx>(d: &mut Dumper<'tcx>, n: &Node<'tcx>, env: TypingEnv<'tcx>
             } else {
                 // named (unevaluated) const?
                 if let Const::Unevaluated(uv, _) = c.const_ {
+                    if let Some(pidx) = uv.promoted {
+                        // promoted constant (e.g. `&"wal-"`): list the literals of its tiny body
+                        let pm = tcx.promoted_mir(uv.def);
+                        if let Some(pb) = pm.get(pidx) {
+                            let mut texts: Vec<J> = Vec::new();
+                            for bbd in pb.basic_blocks.iter() {
+                                for st in bbd.statements.iter() {
+                                    if let StatementKind::Assign(bx) = &st.kind {
+                                        let (_pl, prv) = &**bx;
+                                        let mut ops: Vec<&Operand<'tcx>> = Vec::new();
+                                        match prv {
+                                            Rvalue::Use(o, _) => ops.push(o),
+                                            Rvalue::Cast(_, o, _) => ops.push(o),
+                                            Rvalue::Aggregate(_, os) => { for o in os.iter() { ops.push(o); } }
+                                            Rvalue::Repeat(o, _) => ops.push(o),
+                                            _ => {}
+                                        }
+                                        for o in ops {
+                                            if let Operand::Constant(pc) = o {
+                                                texts.push(J::s(&format!("{}", pc.const_)));
+                                            }
+                                        }
+                                    }
+                                }
+                            }
+                            fields.push(("promoted_texts", J::arr(texts)));
+                        }
+                    }
                     let dk = tcx.def_kind(uv.def);
                     if matches!(dk, DefKind::Const { .. } | DefKind::AssocConst { .. }) {
                         fields.push(("named", J::s(&tcx.def_path_str(uv.def))));
